@@ -1346,6 +1346,8 @@ func refDocs() []string {
 		`{"p":{"a":1,"y":2},"q":{"a":3,"y":4},"r":{"a":5,"b":2}}`,
 		`{"a":[[{"a":1}],{"a":2}],"b":[[[{"a":3,"b":2}]]]}`,
 		`{"a":[10,20,30,40,50],"b":{"p":{"a":1},"q":{"a":2},"r":{"b":2},"s":{"a":4}}}`,
+		// names that are prefixes of one another (order of the key sort), and members with several keys below an object filter
+		`{"a":{"a":1,"ab":2,"abc":[1],"b":2},"ab":{"a":2,"b":2,"c":0},"abc":{"a":3,"c":1},"b":{"a":4,"aa":1},"aa":5}`,
 	}
 }
 
@@ -1463,6 +1465,31 @@ func apiCheckCompose(t *testing.T) {
 				}
 				if (len(want) == 0) != (errAll != nil) || (errAll == nil && apiSnapshot(all) != apiSnapshot(want)) {
 					t.Errorf("REPRODUCED: %q on %s gives %s, %v; %q applied to every container in pre-order gives %s", "$"+st.text+tail, ds, apiSnapshot(all), errAll, "$"+x+tail, apiSnapshot(want))
+					return
+				}
+			}
+		}
+	}
+	// two steps: P = one step, Q = one step (every pair)
+	for _, ds := range refDocs() {
+		doc := refDecode(ds, false)
+		for _, p1 := range pool {
+			for _, q := range pool {
+				whole := refRender([]refStep{p1, q})
+				apiCount()
+				all, errAll := Retrieve(whole, doc)
+				apiCount()
+				base, _ := Retrieve(refRender([]refStep{p1}), doc)
+				var want []interface{}
+				for _, v := range base {
+					apiCount()
+					part, err := Retrieve(refRender([]refStep{q}), v)
+					if err == nil {
+						want = append(want, part...)
+					}
+				}
+				if (len(want) == 0) != (errAll != nil) || (errAll == nil && apiSnapshot(all) != apiSnapshot(want)) {
+					t.Errorf("REPRODUCED: %q on %s gives %s, %v; %q applied to each result of %q gives %s", whole, ds, apiSnapshot(all), errAll, refRender([]refStep{q}), refRender([]refStep{p1}), apiSnapshot(want))
 					return
 				}
 			}
